@@ -388,7 +388,9 @@ def cfg_label(c):
 
 def matching(rep, families):
     quick = rep.tier == "quick"
-    caps = {"main": 1_500_000 if quick else 8_000_000, "aux": 400_000 if quick else 1_500_000, "look": 200_000 if quick else 2_000_000}
+    # thorough caps were 8e6 / 1.5e6 / 2e6: with the run configurations of rounds 2-4 the tier no longer finished in 45 minutes
+    # on 16 cores (one capped run costs tens of seconds under the step hook); lowered so that the tier completes
+    caps = {"main": 1_500_000 if quick else 3_000_000, "aux": 400_000 if quick else 800_000, "look": 200_000 if quick else 600_000}
     cases = []
     for f in sorted(families, key=lambda f: f["fam"]):
         for c in sorted(f["runs"], key=lambda c: json.dumps(c, sort_keys=True)):
